@@ -62,6 +62,8 @@ def write_evidence(prop, tier, seed, results, kani_results, violations, known_hi
             for k, v in r.extractor.rule_counts.items():
                 rules[r.unit + ":" + k] = v
             dropped.extend(r.extractor.dropped)
+            for a in r.extractor.assumed:
+                assumptions.add("%s: %s" % (r.unit, a))
         if r.path and os.path.exists(r.path):
             for a in scan_assumptions(open(r.path).read()):
                 assumptions.add("%s: %s" % (r.unit, a))
